@@ -728,6 +728,21 @@ var recordStringSources = map[string]bool{
 	"util.StringFromBytes":              true,
 }
 
+// c07R3Cfg: content taint. ToValidUTF8 cleans; deep copies have the content of their argument; a byte-offset cut after
+// the cleaner may split a multi-byte sequence and counts as unsanitised again.
+var c07R3Cfg = taintCfg{
+	mode:      "content-utf8",
+	sanitizer: func(n string) bool { return n == "strings.ToValidUTF8" },
+	identity: func(n string) bool {
+		switch n {
+		case "util.DeepCopyString", "util.DeepCopyStrings", "util.DeepCopyStringFromBytes", "strings.Clone":
+			return true
+		}
+		return false
+	},
+	cutBreaks: true,
+}
+
 func ruleC07R3(c *Ctx) {
 	nSites, nDynamic := 0, 0
 	for _, fn := range c.P.universe {
@@ -749,7 +764,7 @@ func ruleC07R3(c *Ctx) {
 			}
 			for _, a := range args {
 				// does the argument derive from record bytes (whatever copies are made on the way)?
-				derived, src := taintWalk(a, taintCfg{sanitizer: func(string) bool { return false }})
+				derived, src := taintWalk(a, taintCfg{mode: "content-raw", identity: c07R3Cfg.identity})
 				if !derived {
 					src = ""
 				}
@@ -766,7 +781,8 @@ func ruleC07R3(c *Ctx) {
 					ok = true
 				}
 				// every flow from record bytes into the argument (including elements stored into the slice) passes ToValidUTF8
-				if unsanitised, _ := taintWalk(a, taintCfg{sanitizer: func(n string) bool { return n == "strings.ToValidUTF8" }}); !unsanitised {
+				unsanitised, usrc := taintWalk(a, c07R3Cfg)
+				if !unsanitised {
 					ok = true
 				}
 				if !ok {
@@ -792,6 +808,21 @@ func ruleC07R3(c *Ctx) {
 								}
 							}
 						}
+						// … and nothing else is ever stored into an element of that slice (a cut after the cleaning would split sequences)
+						eachInstr(fn, func(in ssa.Instruction) {
+							st, isSt := in.(*ssa.Store)
+							if !isSt {
+								return
+							}
+							ia, isIA := strip(st.Addr).(*ssa.IndexAddr)
+							if !isIA || strip(ia.X) != av {
+								return
+							}
+							v, isCall := strip(st.Val).(*ssa.Call)
+							if !isCall || v.Common().StaticCallee() == nil || extName(v.Common().StaticCallee()) != "strings.ToValidUTF8" {
+								sanitizing = false
+							}
+						})
 						if sanitizing && lp.exitBlock != nil && (lp.exitBlock == site.Block() || lp.exitBlock.Dominates(site.Block())) {
 							ok = true
 						}
@@ -799,7 +830,7 @@ func ruleC07R3(c *Ctx) {
 				}
 				c.check(ok, "C07.R3", fn, construct, site.Pos(),
 					"every element is replaced by strings.ToValidUTF8(element) in a completed range loop before the call (source: "+src+")",
-					"bytes of a log record ("+src+") become label values without UTF-8 sanitising: WithLabelValues panics on the first record whose key field is not valid UTF-8")
+					"bytes of a log record ("+src+") become label values without UTF-8 sanitising as the last content operation (unsanitised flow: "+usrc+"): WithLabelValues panics on the first record whose key field is not valid UTF-8 there")
 			}
 		}
 	}
